@@ -149,7 +149,7 @@ impl std::fmt::Debug for NsState {
             write!(f, " (DUPLICATE ENTRIES)")?;
         }
         if let Some((n, l)) = &self.wrong_local {
-            write!(f, " (resolving {:?} returned the local name {:?})", lossy(n), lossy(l))?;
+            write!(f, " (resolving {:?}: local name / generic resolve() disagreement: {:?})", lossy(n), lossy(l))?;
         }
         write!(f, "}}")
     }
@@ -174,6 +174,12 @@ fn observe<Rd>(r: &NsReader<Rd>) -> NsState {
         let want = n.iter().position(|&b| b == b':').map_or(&n[..], |i| &n[i + 1..]);
         let (re, le) = r.resolve_element(QName(n));
         let (ra, la) = r.resolve_attribute(QName(n));
+        // the generic entry point must agree with the two specialised ones
+        let (ge, gle) = r.resolve(QName(n), false);
+        let (ga, gla) = r.resolve(QName(n), true);
+        if (R::of(&ge) != R::of(&re) || R::of(&ga) != R::of(&ra) || gle.as_ref() != le.as_ref() || gla.as_ref() != la.as_ref()) && wrong_local.is_none() {
+            wrong_local = Some((n.to_vec(), format!("resolve(_, false) = {:?}, resolve_element = {:?}; resolve(_, true) = {:?}, resolve_attribute = {:?}", R::of(&ge), R::of(&re), R::of(&ga), R::of(&ra)).into_bytes()));
+        }
         if (le.as_ref() != want || la.as_ref() != want) && wrong_local.is_none() {
             wrong_local = Some((n.to_vec(), if le.as_ref() != want { le.as_ref().to_vec() } else { la.as_ref().to_vec() }));
         }
@@ -740,26 +746,6 @@ pub fn run(ctx: &Ctx) {
     let known = Known::load();
     let seed = ctx.seed;
     let srcs: Vec<SrcKind> = if full { vec![SrcKind::Slice, SrcKind::Buf(1), SrcKind::Buf(0), SrcKind::Async(1)] } else { vec![SrcKind::Slice, SrcKind::Buf(1)] };
-    ctx.layer("documents_x_histories", 0, total, json!({"declaration_atoms": DECLS.iter().map(|d| format!("{}={}", d.0, d.1)).collect::<Vec<_>>(), "sources": srcs.iter().map(|s| format!("{:?}", s)).collect::<Vec<_>>()}), |i, acc| {
-        let Some(doc) = build_doc(&fam, i, thorough) else { return };
-        let root_i = doc_uses_i(&doc);
-        let mut input = Vec::new();
-        write_doc(&doc, root_i, &mut input);
-        acc.count("documents", 1);
-        for expand in [false, true] {
-            let mut steps = Vec::new();
-            flatten(&doc, &mut Vec::new(), true, root_i, expand, &mut steps);
-            link_enclosing(&mut steps);
-            for s in &steps {
-                acc.state(h64(&model_state(&s.chain)));
-            }
-            for &src in &srcs {
-                walk(acc, (0, i), &input, &steps, expand, src, &known, &|| json!(i));
-            }
-        }
-        acc.sample(seed, i, || json!({"document": lossy(&input)}));
-    });
-
     // presentation of the attribute area: tab / line feed / CR LF TAB / two blanks in front of every
     // attribute and declaration (fixed histories: plain, resolved, one skip at each Start)
     let pres_srcs: Vec<SrcKind> = if full { vec![SrcKind::Slice, SrcKind::Buf(1)] } else { vec![SrcKind::Slice] };
@@ -800,9 +786,7 @@ pub fn run(ctx: &Ctx) {
     // buffer holds all prefixes and URIs): representative documents of the family inside `depth`
     // wrapper elements; plain wrappers up to 65 538 deep, declaring wrappers (one new prefix per
     // level, so `depth` bindings are alive) up to 300
-    if !full {
-        return; // the resolver is the same code in both builds
-    }
+    if full {
     let reps: Vec<u64> = {
         let mut v = Vec::new();
         let mut i = 0u64;
@@ -879,6 +863,27 @@ pub fn run(ctx: &Ctx) {
             }
         }
     });
+    }
+    ctx.layer("documents_x_histories", 0, total, json!({"declaration_atoms": DECLS.iter().map(|d| format!("{}={}", d.0, d.1)).collect::<Vec<_>>(), "sources": srcs.iter().map(|s| format!("{:?}", s)).collect::<Vec<_>>()}), |i, acc| {
+        let Some(doc) = build_doc(&fam, i, thorough) else { return };
+        let root_i = doc_uses_i(&doc);
+        let mut input = Vec::new();
+        write_doc(&doc, root_i, &mut input);
+        acc.count("documents", 1);
+        for expand in [false, true] {
+            let mut steps = Vec::new();
+            flatten(&doc, &mut Vec::new(), true, root_i, expand, &mut steps);
+            link_enclosing(&mut steps);
+            for s in &steps {
+                acc.state(h64(&model_state(&s.chain)));
+            }
+            for &src in &srcs {
+                walk(acc, (0, i), &input, &steps, expand, src, &known, &|| json!(i));
+            }
+        }
+        acc.sample(seed, i, || json!({"document": lossy(&input)}));
+    });
+
 }
 
 fn family(t: Tier, full: bool) -> Family {
